@@ -23,12 +23,15 @@ RULE = ('populations of trace shards (4-12 instances, some still scheduled; 0-9 
         'non-adjacent snapshots); events of scheduled instances and events/records younger than the expiry '
         'are still live; nothing is archived in a short batch; history pruning removed only the oldest snapshot names and '
         'kept the newest max_count. Non-trivial: a cut strictly between the first and last write of a run that archived '
-        '>= 1 batch; distinct by (case, k).')
+        '>= 1 batch; distinct by (case, k). One case per shard is the retrieval side beyond the listing cap: the real state '
+        'API (api.state.API with its watchers) lists the finished records matching a pattern after the real archiver moved more '
+        'than 1000 newer non-matching records into later snapshots; every matching record that is live or in a kept snapshot '
+        'must be listed (at most 1000 match).')
 ASSUMPTIONS = ['in-memory ZooKeeper fake; a crash = the k-th mutating call of the archiver session raises a BaseException and nothing of that session is applied afterwards',
                'virtual clock with zero tick (time.time constant during a run); node mtimes set by the harness',
                'tempfile.tempdir redirected to a per-case directory (a dying archiver leaks its temp file by nature)']
 BUDGET = {'quick': (14, 22.0), 'thorough': (260, 280.0)}
-REQUIRED_REACH = {'*': ['trace_reader_checked', 'trace_reader_instance_in_non_adjacent_snapshots', 'cuts', 'cuts_mid_run', 'batches_archived', 'young_or_scheduled_kept', 'history_pruned', 'download_batch_checked', 'bulky_cases']}
+REQUIRED_REACH = {'*': ['trace_reader_checked', 'trace_reader_instance_in_non_adjacent_snapshots', 'cuts', 'cuts_mid_run', 'batches_archived', 'young_or_scheduled_kept', 'history_pruned', 'download_batch_checked', 'bulky_cases', 'state_api_listings_behind_1000_newer_records']}
 
 NOW = 1700000000.0
 
@@ -50,6 +53,113 @@ class _Stop(BaseException):
     pass
 
 
+def listing_case(ctx, idx, rng):
+    """The retrieval side beyond the listing cap: the REAL state API (treadmill.api.state.API with its five
+    watchers on the fake ZooKeeper) lists the finished records matching a pattern after more than 1000 newer
+    records that do not match were archived behind them by later passes of the real archiver.  With at most
+    1000 matching records in all, every matching record that is live or sits in a kept snapshot is listed."""
+    import json
+    import time
+    from treadmill import context
+    from treadmill import zknamespace as z
+    from treadmill.api import state as api_state
+    from treadmill.sproc import trace as sproc_trace
+    cleanup_cmd = sproc_trace.init().commands['cleanup']
+    clock = env.VClock(base=NOW, tick=0.0)
+    clock.install()
+    tmp = tempfile.mkdtemp(prefix='vf-c18-', dir='/dev/shm' if os.path.isdir('/dev/shm') and os.access('/dev/shm', os.W_OK) else None)
+    old_tmp = tempfile.tempdir
+    tempfile.tempdir = tmp
+    old_cell = context.GLOBAL.get('cell', resolve=False)
+    try:
+        srv = zkfake.ZkServer(clock=clock.peek)
+        srv.child_order, srv.order_salt = 'hash', str(idx)
+        adm = srv.client('admin')
+        for p in (z.SCHEDULED, z.RUNNING, z.FINISHED, z.TRACE_HISTORY, z.FINISHED_HISTORY, z.SERVER_TRACE_HISTORY):
+            adm.ensure_path(p)
+        for sh in z.trace_shards() + z.server_trace_shards():
+            adm.ensure_path(sh)
+        fexpires = 300
+        fbatch = rng.choice([150, 200, 260])
+        fmaxhist = 12                       # the history cap keeps every snapshot of this case
+        wanted = rng.randint(5, 60)
+        newer = 1000 + fbatch + rng.randint(5, 150)
+        records = {}
+
+        def finish(name, age):
+            when = NOW - fexpires - age
+            rec = dict(state='finished', host='host%d' % rng.randint(0, 3), when=when, data='%d.0' % rng.randint(0, 3))
+            adm.create(z.path.finished(name), json.dumps(rec).encode())
+            srv.nodes[z.path.finished(name)].mtime = int(when * 1000)
+            records[name] = rec
+
+        def archiver(tag):
+            context.GLOBAL.zk._conn = srv.client(tag)       # pylint: disable=protected-access
+            real_sleep = time.sleep
+
+            def stop(_secs):
+                raise _Stop()
+            time.sleep = stop
+            try:
+                cleanup_cmd.callback(
+                    interval=60, trace_evictions_max_count=1000, trace_service_events_max_count=1000,
+                    trace_batch_size=50, trace_expire_after=300, trace_history_max_count=5,
+                    finished_batch_size=fbatch, finished_expire_after=fexpires, finished_history_max_count=fmaxhist,
+                    no_lock=True)
+            except _Stop:
+                pass
+            finally:
+                time.sleep = real_sleep
+
+        # pass 1: the wanted records (and filler up to whole batches) are archived first
+        for n in range(wanted):
+            finish('proid.report#%010d' % n, 50000 + n)
+        for n in range(2 * fbatch - wanted):
+            finish('proid.filler#%010d' % n, 40000 + n)
+        archiver('archiver-a')
+        # later passes: more than 1000 newer records of other applications are archived behind them
+        for n in range(newer):
+            finish('proid.other#%010d' % n, 100 + n)
+        for n in range(rng.randint(0, 5)):
+            finish('proid.report#%010d' % (5000 + n), 50 + n)        # a few fresh matching ones
+        archiver('archiver-b')
+        snaps = srv.children(z.FINISHED_HISTORY)
+        kept = set()
+        for sn in snaps:
+            kept |= {name for _path, name in rows_of(srv.nodes[z.path.finished_history(sn)].data, 'finished')}
+        live = set(srv.children(z.FINISHED))
+        retrievable = {n for n in records if n.startswith('proid.report#') and (n in live or n in kept)}
+        archived_newer = sum(1 for n in kept if n.startswith('proid.other#'))
+        # the real API
+        context.GLOBAL.cell = 'vfcell'
+        context.GLOBAL.zk._conn = srv.client('state-api')       # pylint: disable=protected-access
+        api = api_state.API()
+        srv.deliver()
+        listed = {i['name'] for i in api.list(match='proid.report', finished=True)}
+        ctx.count('state_api_listings_beyond_cap')
+        ctx.count('state_api_listing_newer_archived_records', archived_newer)
+        if archived_newer > 1000:
+            ctx.count('state_api_listings_behind_1000_newer_records')
+        missing = sorted(retrievable - listed)
+        if missing:
+            where = 'kept-snapshot' if missing[0] in kept else 'live'
+            ctx.violation('state-api-listing-misses-retrievable-finished-record:%s' % where,
+                          'listing proid.report with finished records: %d of the %d matching records that are live or in a kept '
+                          'snapshot are not listed, e.g. %s (%d snapshots kept, %d newer non-matching records archived)' % (
+                              len(missing), len(retrievable), missing[0], len(snaps), archived_newer),
+                          case=dict(case=idx, fbatch=fbatch, wanted=wanted, newer=newer))
+        got = api.get(sorted(retrievable)[0]) if retrievable else None
+        if retrievable and (got is None or got.get('host') != records[sorted(retrievable)[0]]['host']):
+            ctx.violation('state-api-get-misses-retrievable-finished-record', '%s: %r' % (sorted(retrievable)[0], got),
+                          case=dict(case=idx))
+        ctx.done(case_desc=None, nontrivial=False, evals=1)
+    finally:
+        context.GLOBAL.set('cell', old_cell)
+        env.VClock.uninstall()
+        tempfile.tempdir = old_tmp
+        shutil.rmtree(tmp, ignore_errors=True)
+
+
 def run(ctx):
     import time
     from treadmill import context
@@ -63,6 +173,9 @@ def run(ctx):
     from treadmill.trace.server import zk as server_zk
 
     for idx, rng in ctx.cases():
+        if idx == 2:
+            listing_case(ctx, idx, rng)
+            continue
         clock = env.VClock(base=NOW, tick=0.0)
         clock.install()
         # the archiver's sqlite files fsync: keep them on tmpfs when there is one
